@@ -4,8 +4,11 @@
 # when none is named) and reports which of them raise a VIOLATION. /repo is
 # restored after each change. Usage: lib/run_seeded.sh [name ...]
 cd /verif
+# VERIF_REPO (default /repo): the tree the change is applied to and the checks build against; a scratch
+# worktree of /repo can be used while /repo itself must stay untouched (a background run reads it)
+R=${VERIF_REPO:-/repo}
 names=${@:-$(ls seeded)}
-if [ -n "$(git -C /repo status --porcelain)" ]; then echo "/repo is not clean"; exit 2; fi
+if [ -n "$(git -C $R status --porcelain)" ]; then echo "$R is not clean"; exit 2; fi
 for n in $names; do
   d=seeded/$n
   prop=$(python3 -c "import json;print(json.load(open('$d/meta.json'))['property'])")
@@ -17,12 +20,12 @@ for s in m.get('detected_by',[]):
     for c in re.findall(r'C\d\d',s):
         if c not in ids: ids.append(c)
 print(' '.join(ids or [m['property']]))")
-  if ! git -C /repo apply $PWD/$d/patch.diff 2>/dev/null; then echo "$n: patch does not apply"; continue; fi
+  if ! git -C $R apply $PWD/$d/patch.diff 2>/dev/null; then echo "$n: patch does not apply"; continue; fi
   res=""
   for c in $checks; do
     out=$(./check $c --tier quick 2>&1 | grep -E "^(VIOLATION|CHECK-ERROR)" | head -1)
     if [ -n "$out" ]; then res="$res $c:${out%% *}"; else res="$res $c:quiet"; fi
   done
-  git -C /repo checkout -- . ; git -C /repo clean -fdq
+  git -C $R checkout -- . ; git -C $R clean -fdq
   echo "$n ($prop):$res"
 done
